@@ -150,7 +150,78 @@ def cases(tier, seed):
             continue
         seen.add(name)
         out.append((name, sk, {}, {'gen': 'c20', 'spec': sk}))
+    for sh in cyclic_shapes(tier):
+        out.append((f'cyclic:{sh}', {'cyclic': sh}, {}, {'gen': 'c20', 'cyclic': sh}))
     return out
+
+
+# ---- self-referential containers: a termination observation (enumerated, concrete -- labelled so)
+CYC_KINDS = ['list', 'deque', 'dict', 'odict', 'umutseq']
+
+
+def _cyc_mk(kind, n_extra):
+    import collections
+    from . import userclasses as uc
+    if kind == 'list':
+        c = [1, 'a', 2.0][:n_extra]
+        return c, c.append
+    if kind == 'deque':
+        c = collections.deque([1, 'a', 2.0][:n_extra])
+        return c, c.append
+    if kind == 'dict':
+        c = dict([('name', 'r'), ('size', 3), ('w', 2.0)][:n_extra])
+        return c, (lambda x, c=c: c.__setitem__('self', x))
+    if kind == 'odict':
+        c = collections.OrderedDict([('a', 1), ('b', 's'), ('c', 2.0)][:n_extra])
+        return c, (lambda x, c=c: c.__setitem__('self', x))
+    c = uc.UMutSeq([1, 'a', 2.0][:n_extra])
+    return c, c.append
+
+
+def cyclic_object(shape):
+    """shape: 'self:<kind>:<extra>' | 'pair:<kind1>:<kind2>:<extra>' | 'tuple:<kind>:<extra>'."""
+    parts = shape.split(':')
+    n = int(parts[-1])
+    if parts[0] == 'self':
+        c, add = _cyc_mk(parts[1], n)
+        add(c)
+        return c
+    if parts[0] == 'pair':
+        a, adda = _cyc_mk(parts[1], n)
+        b, addb = _cyc_mk(parts[2], n)
+        adda(b)
+        addb(a)
+        return a
+    a, adda = _cyc_mk(parts[1], n)
+    adda((a, 1))
+    return a
+
+
+def cyclic_shapes(tier):
+    out = []
+    for n in (0, 1, 2, 3):
+        out += [f'self:{k}:{n}' for k in CYC_KINDS] + [f'tuple:{k}:{n}' for k in CYC_KINDS]
+        pairs = [(a, b) for a in CYC_KINDS for b in CYC_KINDS]
+        out += [f'pair:{a}:{b}:{n}' for a, b in (pairs if tier != 'quick' else pairs[::3])]
+    return out
+
+
+def cyclic_verdict(shape):
+    """(problem or None): infer_hint on the self-referential object must return, with a recursion warning."""
+    import warnings
+    from beartype.bite import infer_hint
+    obj = cyclic_object(shape)
+    with warnings.catch_warnings(record=True) as w:
+        warnings.simplefilter('always')
+        try:
+            infer_hint(obj)
+        except RecursionError:
+            return 'infer_hint() recursed until RecursionError'
+        except Exception as e:
+            return f'infer_hint() raised {type(e).__name__}: {str(e)[:120]}'
+    if not any('recurs' in (type(x.message).__name__ + str(x.message)).lower() for x in w):
+        return 'infer_hint() returned without a recursion warning'
+    return None
 
 
 def shape_constraints(U, spec, t):
@@ -216,6 +287,18 @@ def run_case(prop, name, spec, confkw, tier, src):
     import warnings
     out = CaseOut(name, confkw)
     t0 = time.time()
+    if 'cyclic' in spec:
+        out.obligations += 1
+        bad = cyclic_verdict(spec['cyclic'])
+        if bad:
+            out.findings.append({'kind': 'c20_cyclic', 'program': 'infer_hint', 'label': f'self-referential container {spec["cyclic"]}: {bad}',
+                                 'replay': write_replay('C20', {'kind': 'c20_cyclic', 'hint': src, 'cyclic': spec['cyclic']}),
+                                 'detail': bad, 'hint': name, 'confkw': {}})
+        else:
+            out.discharged += 1
+        out.observations.append('self-referential container: termination + recursion warning observed concretely (enumerated shape, not a solver verdict)')
+        out.wall = time.time() - t0
+        return out
     try:
         obj = universe.build(spec)
         with warnings.catch_warnings():
@@ -265,6 +348,9 @@ def replay_c20(p):
     from beartype.door import is_bearable
     from .drawpin import PIN
     import warnings
+    if p.get('kind') == 'c20_cyclic':
+        bad = cyclic_verdict(p['cyclic'])
+        return bool(bad), bad or 'terminates with a recursion warning'
     obj = universe.build(p['obj'])
     with warnings.catch_warnings():
         warnings.simplefilter('ignore')
